@@ -60,8 +60,7 @@ theorem Rule.check_jeq (customs : Str → Obj → Except Err Unit) {o o' : Obj} 
     ∀ r : Rule, r.noCustom = true → r.check customs o = r.check customs o'
   | .type f ts, _ => by
     simp only [Rule.check]
-    have : ∀ t, (o.get f).isinstance t = (o'.get f).isinstance t := (h.get f).isinstance_eq
-    simp only [this]
+    rw [(h.get f).assertTypeOk_eq]
   | .value f table, _ => by
     simp only [Rule.check]
     have hg := h.get f
